@@ -17,6 +17,7 @@
     gosort <s>,<s>,…         → <s>,<s>,…                    sort.Strings
     goreadfull <data> <fail> <n> → <bytes> nil|eof|unexpected|src rest=<k>    io.ReadFull on a source that ends cleanly or fails
     gobufread <data> <delim> → <bytes> nil|eof rest=<k>     bufio.Reader.ReadBytes
+    gocount <s> <sep>        → <int>                        strings.Count
     goallspace <b>           → 0|1                          len(bytes.TrimSpace(b)) == 0
     gocontainsany <b> <set>  → 0|1                          bytes.ContainsAny, ASCII set
     goitoa <int>             → <bytes>                      strconv.Itoa
@@ -120,6 +121,7 @@ def handle (op : String) (args : List String) : Option String :=
           | .error _ => "fault"
         | _, _ => "bad-args"
       | _ => "bad-arity"
+  | "gocount" => some <| b2 args fun s sep => toString (Go.strings_Count s sep)
   | "goallspace" => some <| b1 args fun s => bit (Go.bytes_allSpace s)
   | "gocontainsany" => some <| b2 args fun s set => bit (Go.bytes_ContainsAny s set)
   | "goitoa" => some <|
